@@ -21,6 +21,7 @@ from .tast import (
     F,
     Gen,
     Lit,
+    M,
     MapT,
     NewT,
     Obj,
@@ -326,6 +327,23 @@ def object_shapes(nm: Namer) -> Dict[str, Callable[[T, Ctx], Optional[T]]]:
         if isinstance(rx, Coll) and rx.kind in ("list", "seq"):
             return Obj("dataclass", nm("O"), (F("a", x, cons=(("max_items", 1),)),))
         return None
+
+    def ser_methods(x, c):
+        return Obj(
+            "dataclass",
+            nm("O"),
+            (F("a", x),),
+            methods=(
+                M("m", INT, "42", lambda fs: 42),
+                M("p", Opt(INT), "None", lambda fs: None, alias="p_p", prop=True),
+                M("u", Uni((INT, Prim("undefined"))), "Undefined", lambda fs: UNDEF, undefined=True),
+                M("echo", AnyT(), "self.a", lambda fs: fs["a"]),
+            ),
+        )
+
+    def ser_if(x, c):
+        f = dfield("b", x, c, ser_default=True)
+        return f and Obj("dataclass", nm("O"), (F("a", x, ser_if="lambda v: not v"), f))
 
     def two_fields(x, c):
         return Obj("dataclass", nm("O"), (F("a", x), F("b", x)))
